@@ -169,7 +169,7 @@ func (ex *Exec) VerifyFunc(ct *Contract) (res *FuncResult) {
 			rv["it_n"] = it.N
 			rv["it_seq"] = it.Seq
 		}
-		env := &SpecEnv{ex: ex, vars: rv, cur: st2, old: tc.entry, pkg: ct.Pkg, bound: map[string]T{}}
+		env := (&SpecEnv{ex: ex, vars: rv, cur: st2, old: tc.entry, pkg: ct.Pkg, bound: map[string]T{}}).Goal()
 		for _, en := range ct.Ensures {
 			t, err := env.TrBool(en.Expr)
 			if err != nil {
